@@ -25,7 +25,7 @@ LEVEL_NOTE = (
     "and after the transformation, total order <= 4, N <= 7."
 )
 TECHNIQUE = "metamorphic property-based testing (Hypothesis): related block_diagonalize runs compared order by order"
-BUDGET = {"quick": 1000, "thorough": 30000}
+BUDGET = {"quick": 700, "thorough": 30000}
 SHRINK_SECONDS = {"quick": 40, "thorough": 200}
 RULE = (
     "case = (problem from vlib.gen_matrix.problems, relation in {scale, merge, split, permute, pad, power}, relation "
